@@ -321,6 +321,11 @@ def run(ctx):
               'queued triggers are replayed only when the IKE_SA is ESTABLISHED (idle)', key=('M4', 'replay-guard'),
               site=ctx.site(presp, presp.node))
 
+    # what goes on the wire for an outstanding request is the retained request (so a retransmission carries the same Message ID as
+    # the transmission it repeats, also after a COOKIE / INVALID_KE retry) - shared with C13/X1
+    from .c13 import check_retained
+    check_retained(ctx, 'M3')
+
     # ---------------------------------------------------------------- M5
     pm = ctx.func('ikesa.IkeSa.process_message')
     g5 = esc.add_exception_edges(pm)
